@@ -286,7 +286,7 @@ func c06Compare(a, b xlOutcome, rp map[string]string) (cls, detail string) {
 	switch {
 	case a.Status == "ok" && b.Status == "ok":
 		if a.SQL != b.SQL {
-			return "sql-differs", firstDiff(a.SQL, b.SQL)
+			return "sql-differs", firstTextDiff(a.SQL, b.SQL)
 		}
 		if a.Params != b.Params {
 			// the statement allows parameter-map KEYS to follow the user's spelling; values must be equal
@@ -321,7 +321,7 @@ func c06Compare(a, b xlOutcome, rp map[string]string) (cls, detail string) {
 }
 
 // firstDiff shows both texts around the first position where they differ.
-func firstDiff(a, b string) string {
+func firstTextDiff(a, b string) string {
 	i := 0
 	for i < len(a) && i < len(b) && a[i] == b[i] {
 		i++
